@@ -400,7 +400,7 @@ def r_collision(c):
         ci = m.classes[cls]
         if "add" not in ci.methods:
             continue
-        fd = ci.methods["add"]
+        fd = m.inlined(ci.methods["add"])      # a storing helper is seen through
         src = ast.unparse(fd)
         stores_expr = any(
             isinstance(n, ast.Assign) and "_input_key_to_expr" in ast.unparse(
@@ -498,9 +498,10 @@ def r_collision(c):
                                           and from_table(tgt, r.value, depth + 1)
                                           for r in rets)
         return False
+    fdi = m.inlined(fd)
     ok = any(isinstance(a, ast.Assign) and "_input_key_to_result" in
              ast.unparse(a.targets[0]) and isinstance(a.value, ast.Name)
-             and from_table(fd, a.value) for a in ast.walk(fd))
+             and from_table(fdi, a.value) for a in ast.walk(fdi))
     c.check(ok, "R13-COLLISION", "TransformMapperCache.add",
             "inserts-deduplicated-result", m.loc(m.module_of(fd), fd),
             "the object stored under the input key is not the one returned by the "
